@@ -1233,3 +1233,111 @@ def u_recompute(W, sk):
         after = results(S)
         for nm in names:
             W.forall_range(f"recompute.idempotent.{nm}", [(0, n)] + S.extra_ranges(), (lambda a, b: lambda idx: W.num_eq(a(*idx), b(*idx)))(after[nm][0], before[nm][0]))
+
+
+# ----------------------------------------------------------------------------------------
+# C13: stocks and lifetime models reject arrays / models over other dimensions, and time not first
+
+
+def sk_validation(tier):
+    out = []
+    for cls in ("flow", "inflow", "stock"):
+        for case in ("none", "same", "other_letters", "twin_time", "twin_extra", "time_not_first", "lifetime_other_letters", "lifetime_twin", "lifetime_class"):
+            if cls == "flow" and case.startswith("lifetime"):
+                continue
+            out.append({"cls": cls, "case": case})
+    out.append({"cls": "lifetime", "case": "time_not_first"})
+    out.append({"cls": "lifetime", "case": "ok"})
+    return out
+
+
+@unit(
+    "stocks.constructor_validation",
+    props=["C13", "C15"],
+    targets=[
+        "flodym.stocks.Stock.validate_stock_arrays",
+        "flodym.stocks.Stock.validate_time_first_dim",
+        "flodym.stocks.Stock.init_t",
+        "flodym.stocks.DynamicStockModel.init_cohort_arrays",
+        "flodym.stocks.DynamicStockModel.init_lifetime_model",
+        "flodym.lifetime_models.LifetimeModel.check_inflow_at",
+        "flodym.lifetime_models.LifetimeModel.cast_prms",
+        "flodym.lifetime_models.LifetimeModel.init_t",
+    ],
+    skeletons=sk_validation,
+    note="dims (t, r) of symbolic size; 'twin' = a Dimension with the same letter but other items (its own symbolic length): arrays or lifetime models over a twin differ from the stock's dimensions and must be rejected; accepted arrays keep wf; inputs are not modified",
+)
+def u_validation(W, sk):
+    import flodym.stocks as st
+    import flodym.lifetime_models as lt
+    from flodym.flodym_arrays import StockArray
+    from .dimensions import mk_set
+
+    T = W.dim("t", name="Time", lo=3)
+    R = W.dim("r")
+    Q = W.dim("q")
+    T2 = W.dim("t", name="Time", lo=3, tag="t_twin")
+    R2 = W.dim("r", tag="r_twin")
+    if not W.symbolic:
+        # a real time dimension needs numeric items
+        T.items[:] = [2000 + 2 * k for k in range(len(T.items))]
+        T2.items[:] = [1990 + 3 * k for k in range(len(T2.items) + 1)]
+        R2.items[:] = [f"other{k}" for k in range(len(R2.items) + 1)]
+    dims = mk_set(W, [T, R])
+    case = sk["case"]
+    if sk["cls"] == "lifetime":
+        if case == "time_not_first":
+            out = W.call(lambda: lt.NormalLifetime(dims=mk_set(W, [R, T]), time_letter="t"))
+            SL.check_raises(W, "lifetime model whose time dimension is not first", out, ValueError)
+        else:
+            out = W.call(lambda: lt.NormalLifetime(dims=dims, time_letter="t"))
+            W.prove("lifetime model over (t, r) accepted", out.kind == "return", detail=repr(out))
+        return
+    cls = {"flow": st.SimpleFlowDrivenStock, "inflow": st.InflowDrivenDSM, "stock": st.StockDrivenDSM}[sk["cls"]]
+    kw = dict(dims=dims, name="s", time_letter="t")
+    arr_dims = {"same": [T, R], "other_letters": [T, Q], "twin_time": [T2, R], "twin_extra": [T, R2]}.get(case)
+    given = None
+    if arr_dims is not None:
+        given = W.array("given", arr_dims, cls=StockArray)
+        kw["inflow"] = given
+    if case == "time_not_first":
+        kw["dims"] = mk_set(W, [R, T])
+    lm_dims = [T, R]
+    if sk["cls"] != "flow":
+        if case == "lifetime_class":
+            kw["lifetime_model"] = lt.NormalLifetime
+        else:
+            if case == "lifetime_other_letters":
+                lm_dims = [T, Q]
+            elif case == "lifetime_twin":
+                lm_dims = [T, R2]
+            if case == "time_not_first":
+                kw["lifetime_model"] = lt.NormalLifetime
+            elif W.symbolic:
+                lm = lt.NormalLifetime.model_construct(dims=mk_set(W, lm_dims), time_letter="t", inflow_at="middle", n_pts_per_interval=1, mean=None, std=None)
+                lm._sf, lm._pdf, lm._t = None, None, None
+                kw["lifetime_model"] = lm
+            else:
+                kw["lifetime_model"] = lt.NormalLifetime(dims=mk_set(W, lm_dims), time_letter="t")
+    snaps = SL.snapshot(W, [given]) if given is not None else []
+    out = W.call(lambda: cls(**kw))
+    bad = case in ("other_letters", "twin_time", "twin_extra", "time_not_first", "lifetime_other_letters", "lifetime_twin")
+    if case in ("twin_time", "twin_extra", "lifetime_twin") and W.symbolic:
+        # a twin of *equal length* still is another dimension (other items); the symbolic twin has arbitrary length
+        pass
+    if bad:
+        SL.check_raises(W, f"stock[{case}].refused", out, ValueError)
+    else:
+        W.prove(f"stock[{case}].accepted", out.kind == "return", detail=repr(out))
+        if out.kind == "return":
+            s = out.value
+            for nm in ("stock", "inflow", "outflow"):
+                a = getattr(s, nm)
+                if SL.check_wf(W, f"stock[{case}].{nm}", a):
+                    W.prove(f"stock[{case}].{nm}.over_the_stock_dimensions", [d.letter for d in a.dims.dim_list] == ["t", "r"] and all(x is y for x, y in zip(a.dims.dim_list, [T, R])))
+            if given is not None:
+                W.prove(f"stock[{case}].keeps_the_given_array", s.inflow is given)
+            if sk["cls"] != "flow":
+                W.prove(f"stock[{case}].lifetime_model_instance_over_the_stock_dimensions", isinstance(s.lifetime_model, lt.NormalLifetime) and [d.letter for d in s.lifetime_model.dims.dim_list] == ["t", "r"])
+    if snaps:
+        SL.check_unchanged(W, f"stock[{case}]", snaps)
